@@ -2,7 +2,7 @@
 
 PROPS = {
     'C11': {
-        'lean': ['Netpol.Properties.C11', 'Netpol.Tie.Consts'],
+        'lean': ['Netpol.Properties.C11', 'Netpol.Tie.Consts', 'Netpol.Tie.Procs'],
         'families': [('alg', 3000, 150000), ('exposure', 150, 6000)],
         'accept_props': ['C11'],
         'shard_min': 25,
